@@ -59,7 +59,12 @@ def _shim_biopython():
             loc = self.location
             return None if loc is None else loc.strand
 
-        SeqFeature.strand = property(_strand)
+        def _set_strand(self, value):
+            # Biopython <= 1.79: the setter forwards to the location
+            if self.location is not None:
+                self.location.strand = value
+
+        SeqFeature.strand = property(_strand, _set_strand)
         done.append("SeqFeature.strand")
     import inspect
 
@@ -68,10 +73,13 @@ def _shim_biopython():
 
         def __init__(self, *a, strand=None, **kw):
             orig_init(self, *a, **kw)
+            # Biopython <= 1.79 applied the keyword: `self.strand = strand` -> `self.location.strand = strand`
+            if strand is not None and self.location is not None:
+                self.location.strand = strand
 
         __init__.__wrapped__ = orig_init
         SeqFeature.__init__ = __init__
-        done.append("SeqFeature(strand=) ignored")
+        done.append("SeqFeature(strand=) applied to the location as in Biopython <= 1.79")
     for cls in (SimpleLocation, CompoundLocation):
         if not hasattr(cls, "nofuzzy_start"):
             cls.nofuzzy_start = property(lambda self: int(self.start))
